@@ -249,6 +249,48 @@ def _replay_fun(which, m_len, m2):
     return replay
 
 
+# ---- functional helpers with the DEFAULT metric (metric=None -> Levenshtein.distance) and forwarded keyword arguments
+def _body_default(which, ashape, bshape, wmax):
+    def body():
+        from pyrepseq import distance
+        from vlib import sym, symops as so
+        A = [sym.sym_str(f"a{i}", n) for i, n in enumerate(ashape)]
+        ins, dele, sub = (sym.sym_int(w, 1, wmax) for w in ("ins", "del", "sub"))
+        if which == "pdist":
+            m = len(A)
+            got = distance.pdist(A, weights=(ins, dele, sub))
+            if got.shape != (m * (m - 1) // 2,):
+                return False, f"shape {got.shape}"
+            conds = [so.eq(got[m * i + j - ((i + 2) * (i + 1)) // 2], wlev_term(A[i], A[j], ins, dele, sub)) for i in range(m) for j in range(i + 1, m)]
+        else:
+            B = [sym.sym_str(f"b{i}", n) for i, n in enumerate(bshape)]
+            got = distance.cdist(A, B, weights=(ins, dele, sub))
+            if got.shape != (len(A), len(B)):
+                return False, f"shape {got.shape}"
+            conds = [so.eq(got[i, j], wlev_term(A[i], B[j], ins, dele, sub)) for i in range(len(A)) for j in range(len(B))]
+        return so.b_and(*conds), (lambda: f"{which}(default metric, weights) -> {_realize(got.tolist())}")
+    return body
+
+
+def _replay_default(which, ashape, bshape):
+    def replay(inputs):
+        import numpy as np
+        from pyrepseq import distance
+        A = [inputs[f"a{i}"] for i in range(len(ashape))]
+        w = (int(inputs["ins"]), int(inputs["del"]), int(inputs["sub"]))
+        if which == "pdist":
+            got = [int(v) for v in distance.pdist(A, weights=w)]
+            want = [wlev(A[i], A[j], *w) for i in range(len(A)) for j in range(i + 1, len(A))]
+            call = f"pdist({A!r}, weights={w})"
+        else:
+            B = [inputs[f"b{i}"] for i in range(len(bshape))]
+            got = np.asarray(distance.cdist(A, B, weights=w)).tolist()
+            want = [[wlev(a, b, *w) for b in B] for a in A]
+            call = f"cdist({A!r}, {B!r}, weights={w})"
+        return got == want, f"default metric with forwarded keyword arguments: {call} = {got} expected {want}"
+    return replay
+
+
 def _sh(s):
     return ",".join(map(str, s))
 
@@ -309,6 +351,11 @@ def conditions(tier):
         out.append(Condition(f"C08/cdist/fun/{m1}x{m2}", _body_fun("cdist", m1, m2), _replay_fun("cdist", m1, m2), budget=120, models=M,
                              bounds=f"functional cdist {m1} x {m2}"))
     from harness import common as hc
+    for which, a, b in [("pdist", (2, 1), ()), ("pdist", (1, 2, 1), ()), ("cdist", (2,), (1,)), ("cdist", (1, 2), (2, 0))] + \
+            ([("pdist", (2, 2, 1), ()), ("cdist", (2, 2), (3,))] if T else []):
+        out.append(Condition(f"C08/{which}/default-metric+weights/A={_sh(a)}" + (f"/B={_sh(b)}" if which == "cdist" else ""),
+                             _body_default(which, a, b, wmax), _replay_default(which, a, b), budget=300 if not T else 1200, models=M,
+                             bounds=f"functional {which} with metric left at its default and weights=(ins,del,sub) symbolic 1..{wmax} forwarded as a keyword argument; strings {a}" + (f" x {b}" if which == "cdist" else "")))
     out.append(hc.probe_condition("C08/probe/pdist_vector/300-and-700-strings/levenshtein", "Levenshtein().calc_pdist_vector on 300 and 700 strings: every condensed index against the DP oracle",
                                   _probe_many_strings(None)))
     out.append(hc.probe_condition("C08/probe/pdist_vector/300-and-700-strings/weighted", "WeightedLevenshtein(1,2,3).calc_pdist_vector on 300 and 700 strings: every condensed index",
